@@ -208,3 +208,101 @@ class FixedPolicy:
         if a is None:
             self.refused.append(inp.name())
         return a
+
+
+# ------------------------------------------------------------------------------ read-sequence determinism (C05)
+
+class ReadTrace:
+    """Per line evaluation: the SEQUENCE of store reads with what each returned, and how the evaluation ended.
+    A line definition is a function of inputs and other lines only (C05), so the k-th thing it reads, and its
+    result once it stops reading, are determined by what the earlier reads returned.  Two evaluations of the same
+    line -- in one solve or in two solves of the same scenario -- that received the same answers so far and then do
+    something different show a line that consults something else (loaded forms, solver state, a module global)."""
+
+    def __init__(self):
+        self.attempts = []          # (line, [(kind, key, result)], outcome)
+        self._stack = []
+
+    @staticmethod
+    def _show(v):
+        return f'{type(v).__name__}:{v!r}'
+
+    def install(self):
+        import contextlib
+        from habutax import solver as hsolver, inputs as hinputs, values as hvalues
+        tr = self
+
+        @contextlib.contextmanager
+        def cm():
+            orig_attempt = hsolver.Solver._attempt_field
+            orig_iget = hinputs.InputStore.__getitem__
+            orig_vget = hvalues.ValueStore.__getitem__
+            orig_vset = hvalues.ValueStore.__setitem__
+
+            def attempt(self, field):
+                rec = {'line': field.name(), 'reads': [], 'outcome': None}
+                tr._stack.append(rec)
+                try:
+                    return orig_attempt(self, field)
+                finally:
+                    tr._stack.pop()
+                    tr.attempts.append((rec['line'], rec['reads'], rec['outcome']))
+
+            def mk(kind, orig):
+                def get(self, key):
+                    try:
+                        v = orig(self, key)
+                    except BaseException as e:  # noqa: BLE001
+                        if tr._stack:
+                            tr._stack[-1]['reads'].append((kind, key, 'raises ' + type(e).__name__))
+                        raise
+                    if tr._stack:
+                        tr._stack[-1]['reads'].append((kind, key, tr._show(v)))
+                    return v
+                return get
+
+            def vset(self, key, value):
+                if tr._stack and tr._stack[-1]['line'] == key:
+                    tr._stack[-1]['outcome'] = 'value ' + tr._show(value)
+                return orig_vset(self, key, value)
+            hsolver.Solver._attempt_field = attempt
+            hinputs.InputStore.__getitem__ = mk('input', orig_iget)
+            hvalues.ValueStore.__getitem__ = mk('line', orig_vget)
+            hvalues.ValueStore.__setitem__ = vset
+            try:
+                yield tr
+            finally:
+                hsolver.Solver._attempt_field = orig_attempt
+                hinputs.InputStore.__getitem__ = orig_iget
+                hvalues.ValueStore.__getitem__ = orig_vget
+                hvalues.ValueStore.__setitem__ = orig_vset
+        return cm()
+
+    def divergences(self):
+        """[(line, common history, action A, action B)]: same line, same answers so far, different next step"""
+        tries = {}
+        out, seen = [], set()
+        for line, reads, outcome in self.attempts:
+            node = tries.setdefault(line, {})
+            hist = []
+            steps = [('read', k, key, res) for k, key, res in reads]
+            for st in steps + [('end', outcome)]:
+                action = st[:3] if st[0] == 'read' else ('end', st[1] if st[1] is not None and st[1].startswith('value') else None)
+                # an evaluation that ends without a value ended in the exception its last read raised (or in
+                # not_implemented / a failed guard): only VALUES are compared at the end
+                if st[0] == 'end' and action[1] is None:
+                    break
+                prev = node.get('action')
+                if prev is None:
+                    node['action'] = action
+                elif prev != action:
+                    # a different next read, a different value, or one evaluation stopped with a value where the
+                    # other went on reading
+                    if line not in seen:
+                        seen.add(line)
+                        out.append((line, list(hist), prev, action))
+                    break
+                if st[0] == 'read':
+                    hist.append((st[1], st[2], st[3]))
+                    node = node.setdefault(('res', st[3]), {})
+        return out
